@@ -13,7 +13,12 @@ def obligations(tier, H):
     obs = []
     n = [0]
 
-    def add(params, call, pre, shape, codes=(100,), timeout=240 if thorough else 90):
+    # Budgets are wall-clock limits sized at >= 4x the slowest obligation measured on an idle 16-core
+    # sandbox with all 16 workers busy (quick: do_POST/raises on the 16-byte text 77-86 s, url 50 s,
+    # everything else < 35 s).  A budget costs nothing while the obligation confirms: CrossHair stops as
+    # soon as the path tree is exhausted.  The first version gave 90 s and c17_0119 ran out of it on a
+    # slower restore (DESIGN 7.6).
+    def add(params, call, pre, shape, codes=(100,), timeout=480 if thorough else 240):
         n[0] += 1
         obs.append(Ob("c17_{0:04d}".format(n[0]), params, call, pre=pre, shape=shape, twin_codes=codes, timeout=timeout))
 
@@ -35,7 +40,7 @@ def obligations(tier, H):
                 shape = {"part": "url", "scheme": scheme, "has_query": has_query, "prefix": prefix}
                 pre = ["len(path) <= {0}".format(plen), "len(query) <= {0}".format(plen if has_query else 0), SAFE_PATH, SAFE_QUERY,
                        "path == '' or path[0] == '/'" if prefix == "" else "True"]
-                add("path: str, query: str", "H.h_url({0!r}, path, query)".format(shape), pre, shape, timeout=240 if thorough else 120)
+                add("path: str, query: str", "H.h_url({0!r}, path, query)".format(shape), pre, shape, timeout=480 if thorough else 240)
     for scheme, expect in (("http", "accept"), ("https", "accept"), ("unix+http", "accept"), ("ftp", "reject"), ("", "reject"),
                            ("file", "reject"), ("unix+ftp", "reject"), ("unix", "reject"), ("ws", "reject"), ("httpx", "reject"),
                            ("unix+https", "reject"),
@@ -67,7 +72,7 @@ def obligations(tier, H):
             ["0 <= c1 <= c2 <= {0}".format(size), "len(ctype) <= {0}".format(slen)], shape)
         shape = {"part": "do_POST", "text": text, "raises": True}
         add("c1: int, c2: int, ctype: str", "H.h_do_post({0!r}, c1, c2, ctype)".format(shape),
-            ["0 <= c1 <= c2 <= {0}".format(size), "len(ctype) <= {0}".format(slen)], shape, codes=(101,), timeout=300 if thorough else 90)
+            ["0 <= c1 <= c2 <= {0}".format(size), "len(ctype) <= {0}".format(slen)], shape, codes=(101,), timeout=900 if thorough else 400)
     for reply in range(len(H.TEXTS)):
         for ctype in range(len(H.CTYPES)):
             # print() formats its arguments: the content type comes from a table
